@@ -31,7 +31,7 @@ ASSUMPTIONS = [
 PROBES = ["dirruns", "inputs_ge_3", "cross_file_var_ref", "stale_output_present", "repeat_run_checked", "enum_runs",
           "fault:non-utf8", "fault:empty", "fault:dir-named-css", "fault:dangling-link", "fault:unserialisable",
           "fault:eacces", "fault:eio", "fault:late-unserialisable", "fault:out-is-dir", "fault:eacces-out",
-          "fault_first", "fault_middle", "fault_last", "cm_named_input_present", "late_fault_defines_props_others_reference", "symlinked_stylesheet_input", "duplicate_content_files", "same_translucent_text_in_several_files", "bom_files", "dirruns_in_one_process", "outputs_reencoded_between_runs", "hard_linked_stylesheet_names", "heavy_trees", "dirruns_stderr_none", "dirruns_in_thread", "dirruns_fd_headroom",
+          "fault_first", "fault_middle", "fault_last", "cm_named_input_present", "late_fault_defines_props_others_reference", "symlinked_stylesheet_input", "duplicate_content_files", "same_translucent_text_in_several_files", "bom_files", "dirruns_in_one_process", "outputs_reencoded_between_runs", "hard_linked_stylesheet_names", "heavy_trees", "intrinsically_bad_entries_judged", "imports_of_sibling_stylesheets", "dirruns_stderr_none", "dirruns_in_thread", "dirruns_fd_headroom",
           "outputs_compared"]
 
 FAULT_KINDS = ("non-utf8", "empty", "dir-named-css", "dangling-link", "unserialisable", "eacces", "eio",
@@ -41,7 +41,7 @@ FAULT_KINDS = ("non-utf8", "empty", "dir-named-css", "dangling-link", "unseriali
 LATE_KINDS = ("late-unserialisable", "out-is-dir", "eacces-out")
 C18_FEATURES = ("vars", "var-fallback", "var-undefined", "var-chain", "var-shared", "root-direct-color", "root-and-html",
                 "important", "repeat-decl", "nesting", "bg-var", "keywords", "comments", "no-color-rules", "opaque-atrules",
-                "non-ascii", "alpha-text", "bom", "crlf", "var-names", "own-colour-elsewhere")
+                "non-ascii", "alpha-text", "bom", "crlf", "var-names", "own-colour-elsewhere", "var-cycle")
 _NAMES = ("a.css", "b.css", "main.css", "style.css", "thème.css", "the\u0300me.css", "cafe\u0301.css", "my style.css", "z9.css", "reset.min.css", "c_cm2.css", ".hidden.css", "a.b.c.css")
 _DIRS = ("", "", "sub/", "sub/deep/", "x.d/", "v1.css/", "pkg_cm.css/", "sub dir/", "theme[v2]/", "a*b/", "q?/.cfg/")
 _UNSER = ("a{} }", "}", "a{color:#777} ]", "@media x{ a{color:#777} } }\n.b{color:#888}")
@@ -217,6 +217,15 @@ def generate(rseed, tier, idx):
         steps.pop()
         return {"prop": ID, "enum": kind, "tree": tree, "env": env, "steps": steps}
 
+    # an index stylesheet that @imports a sibling of the tree (the import is opaque material: it is carried over as it is)
+    if len(tree) >= 2 and g.random() < 0.15:
+        cands = sorted(r for r in tree if tree[r].get("ast"))
+        if len(cands) >= 2:
+            a_, b_ = g.sample(cands, 2)
+            relp = os.path.relpath(b_, os.path.dirname(a_) or ".")
+            tree[a_]["ast"]["items"].insert(0, {"t": "raw", "text": g.choice(('@import "%s";', "@import url(%s);", "@import '%s' screen;")) % relp})
+            tree[a_]["text"] = gen.render(tree[a_]["ast"])
+            tree[a_]["imports"] = True
     # two NAMES for one file (hard links: cp -al copies, package stores, de-duplicating tools)
     if g.random() < 0.08:
         srcs = sorted(r for r in tree if tree[r].get("ast"))
@@ -517,8 +526,29 @@ def execute(trace):
                             bump("fault_last")
                         elif pos > 0:
                             bump("fault_middle")
+                # judged from the bytes, not from what a single-file run of the same code says: an entry that is not a
+                # UTF-8 text file at all (undecodable bytes, a directory, a link to nowhere) is "reported and skipped"
+                bad_kind = None
+                if ent[0] == "f":
+                    try:
+                        ent[1].decode("utf-8-sig")
+                    except UnicodeDecodeError:
+                        bad_kind = "undecodable"
+                elif ent[0] == "d":
+                    bad_kind = "directory"
+                elif ent[0] == "l" and before.get(os.path.normpath(os.path.join(os.path.dirname(rel), ent[1]))) is None \
+                        and not os.path.exists(os.path.join(tdir, os.path.dirname(rel), ent[1])):
+                    bad_kind = "dangling-link"
+                if bad_kind and not _entry_fault_is_io(st, rel):
+                    bump("intrinsically_bad_entries_judged")
+                    if not env.get("stderr_none") and ("<SBX>/tree/" + rel) not in errs:
+                        V("bad-file-not-reported", si, file=rel, what=bad_kind, stderr_paths=sorted(errs))
+                    if got is not None and got != before.get(_out_of(rel)):
+                        V("bad-file-not-skipped", si, file=rel, what=bad_kind, output=_show(got))
                 if trace["tree"].get(rel, {}).get("xref"):
                     bump("cross_file_var_ref")
+                if trace["tree"].get(rel, {}).get("imports"):
+                    bump("imports_of_sibling_stylesheets")
                 if trace["tree"].get(rel, {}).get("duplicate_of"):
                     bump("duplicate_content_files")
                 if trace["tree"].get(rel, {}).get("same_alpha"):
@@ -583,6 +613,10 @@ def execute(trace):
     finally:
         base.rm_tree(root)
     return {"violations": vio, "digest": base.digest(events), "nontrivial": nontrivial, "stats": stats, "steps": steps_n}
+
+
+def _entry_fault_is_io(st, rel):
+    return any(f["path"] in ("tree/" + rel, "tree/" + _out_of(rel)) for f in st.get("faults", ()))
 
 
 def _entry_fault(trace, st, rel, ent):
